@@ -178,6 +178,15 @@ class C13(Prop):
                             v.info['failing-update-in-the-run'] = 1
                             continue
                     out.append(m.update(stamps[i], [('x', vals[i])]))
+            elif case['mode'].startswith('online') and n >= 4 and (n + len(case['text'])) % 5 == 0:
+                # the same configuration is applied again in the middle of the run (a supervisor re-sending its
+                # settings): nothing changes, the gap that straddles the call is a gap like every other
+                out = []
+                for i in range(n):
+                    if i == n // 2:
+                        m.spec.set_sampling_period(period, punit, tol)
+                        v.info['same-configuration-re-applied-mid-run'] = 1
+                    out.append(m.update(stamps[i], [('x', vals[i])]))
             elif case['mode'].startswith('online'):
                 out = [m.update(stamps[i], [('x', vals[i])]) for i in range(n)]
             else:
